@@ -67,7 +67,12 @@ def metric_events(circuit, rng):
     return evs
 
 
-def trace_for(tid, circuit, rng, meta):
+def trace_for(tid, circuit, rng, meta, warm=False):
+    if warm:
+        try:
+            _ = circuit.register_depth, circuit.depth      # a query BEFORE the metrics (caches, if any, get filled)
+        except Exception:
+            pass
     before, _ = cz.project_circuit(circuit)
     evs = metric_events(circuit, rng)
     after, _ = cz.project_circuit(circuit)
@@ -86,6 +91,27 @@ def run(ctx):
         prog = emission_like_program(rng, n_e, n_p, rng.randint(0, 12))
         tid += 1
         traces.append(trace_for(tid, cz.build_circuit(n_e, n_p, 1, prog), rng, {"kind": "random", "program": prog}))
+    # edit-then-measure histories: metrics and register depths are re-evaluated after removals / insertions on the SAME
+    # circuit object (each round is judged against a fresh projection)
+    from graphiq.circuit import ops as gops
+    for _ in range(25 if ctx.quick else 600):
+        n_e, n_p = rng.randint(1, 3), rng.randint(1, 2)
+        prog = emission_like_program(rng, n_e, n_p, rng.randint(4, 12))
+        if rng.random() < 0.6:       # identities and no wrappers
+            prog = [p for p in prog if p["k"] != "OneQubitGateWrapper"]
+            for _k in range(3):
+                prog.insert(rng.randrange(len(prog) + 1), {"k": "Identity", "r": [["e", rng.randrange(n_e)]], "c": None})
+        circuit = cz.build_circuit(n_e, n_p, 1, prog)
+        for rnd in range(3):
+            tid += 1
+            traces.append(trace_for(tid, circuit, rng, {"kind": "edit-history", "round": rnd, "program": prog}, warm=True))
+            nodes = [n for n in circuit.dag.nodes if not isinstance(circuit.dag.nodes[n]["op"], gops.InputOutputOperationBase)]
+            if not nodes:
+                break
+            if rng.random() < 0.7:
+                circuit.remove_op(rng.choice(nodes))
+            else:
+                circuit.add(cz.build_op({"k": rng.choice(cz.ONEQ), "r": [["e", rng.randrange(n_e)]], "c": None}))
     for f in (bc.ghz3_state_circuit, bc.linear_cluster_4qubit_circuit, bc.ghz4_state_circuit,
               bc.linear_cluster_3qubit_circuit):
         tid += 1
